@@ -447,3 +447,37 @@ def learn_many(requests, hashseed=0, uuid_seed=0, nproc=None):
     [t.start() for t in ths]
     [t.join() for t in ths]
     return results
+
+
+class GenLoopy(GenF):
+    """Loop-rich definitions beyond the letter of F (used by C07 only): break branches may be whole
+    sequences containing a loop or a fork, several loops may follow one event through an XOR, loops may
+    end in a fork.  These are the shapes of the corpus' loop cases (break points, nested breaks, two
+    different loops after the same event)."""
+
+    def loopbody(self, depth, loopdepth):
+        body = self.seq(depth + 1, True, loopdepth + 1)
+        if depth + 1 < 3 and self.r.random() < 0.6:
+            brs = []
+            for _ in range(self.r.choice([1, 1, 2])):
+                b = [self.ev()]
+                r = self.r.random()
+                if r < 0.4 and depth + 2 < 3:
+                    b.append(("loop", [self.ev()] + ([self.ev()] if self.r.random() < 0.6 else [])))
+                elif r < 0.6:
+                    b.append(self.ev())
+                b.append(("break",))
+                brs.append(b)
+            brs.append([self.ev()])
+            pos = self.r.randrange(1, len(body) + 1)
+            if body[pos - 1][0] == "ev" and (pos == len(body) or body[pos][0] == "ev"):
+                body.insert(pos, ("fork", "XOR", brs))
+        return body
+
+    def seq(self, depth, inloop, loopdepth):
+        out = super().seq(depth, inloop, loopdepth)
+        if depth < 2 and self.r.random() < 0.25:
+            # two different loops following the same event
+            out.append(self.ev())
+            out.append(("fork", "XOR", [[self.ev(), ("loop", [self.ev(), self.ev()])], [self.ev(), ("loop", [self.ev()])]]))
+        return out
